@@ -188,7 +188,21 @@ func gen(seed uint64, tier string, idx int) sim.CaseI {
 	kr := sim.NewRand(sim.Mix(seed, 2))
 	c := &Case{}
 	nm := wr.Range(1, 3)
-	vers := []string{"v0.1.0", "v0.2.0", "v0.2.1-pre"}
+	// versions of one module share a download directory: include versions that
+	// are string prefixes of one another (v0.1.1 / v0.1.10, v0.2.0 / v0.2.0-rc.1)
+	pool := []string{"v0.1.0", "v0.1.1", "v0.1.10", "v0.2.0", "v0.2.0-rc.1", "v0.2.1-pre"}
+	var vers []string
+	if wr.Bool(0.5) {
+		k := []int{1, 3}[wr.Intn(2)] // a prefix pair first
+		vers = []string{pool[k], pool[k+1], pool[wr.Intn(len(pool))]}
+		if vers[2] == vers[0] || vers[2] == vers[1] {
+			vers[2] = "v0.3.0"
+		}
+	} else {
+		for _, k := range wr.Perm(len(pool))[:3] {
+			vers = append(vers, pool[k])
+		}
+	}
 	for i := 0; i < nm; i++ {
 		m := Mod{Path: "ex.com/a@v0", Version: vers[i]}
 		if wr.Bool(0.3) {
